@@ -67,7 +67,33 @@ def normaliser(repo: Repo) -> Optional[FuncInfo]:
     return None
 
 
+_CTX_SAMPLE = """
+def scale(self):
+    with localcontext() as ctx:
+        ctx.prec = 22
+        return self.number.log10()
+"""
+
+
+def _context_changes(tree: ast.AST) -> List[ast.AST]:
+    out = []
+    for n in ast.walk(tree):
+        if isinstance(n, ast.Call) and (dotted(n.func) or "").split(".")[-1] in ("localcontext", "setcontext", "getcontext", "Context"):
+            out.append(n)
+        if isinstance(n, ast.Attribute) and n.attr in ("prec", "rounding", "Emin", "Emax") and isinstance(n.ctx, ast.Store):
+            out.append(n)
+    return out
+
+
 def check(repo: Repo, R) -> None:
+    # exactness: arithmetic runs under the one decimal context the module works with; nothing narrows it locally
+    if len(_context_changes(ast.parse(_CTX_SAMPLE))) < 2:
+        raise AnalysisError("self-check failed: the decimal-context rule does not see its positive sample")
+    sfp = repo.file(F_PREFIX)
+    ch = [c for c in _context_changes(sfp.tree)]
+    R.check(not ch, "C14.6-arithmetic-shape", f"{F_PREFIX}::decimal-context", F_PREFIX if not ch else f"{F_PREFIX}:{getattr(ch[0], 'lineno', 0)}",
+            f"{F_PREFIX} never changes the decimal context (no localcontext / setcontext / precision assignment)" if not ch else f"`{ast.unparse(ch[0])[:60]}` changes the decimal context around prefixed arithmetic",
+            why="results with more digits than the narrowed precision are silently rounded: (a*b) differs from the exact product")
     ci = repo.cls(F_PREFIX, "Prefixed")
     norm = normaliser(repo)
     nname = norm.name if norm else None
